@@ -730,7 +730,8 @@ func fixedCases() []Case {
 
 // TypesCase: Ops are (kind, key code): kind 0 Upsert(fresh value), 1 Delete, 2 Get. KT: 0 string keys ("k007") ascending,
 // 1 float64 keys (c/4-3) descending, 2 uint8 keys ascending, 3 string keys ordered by (length, then bytes) - a strict total
-// order that differs from the natural one.
+// order that differs from the natural one, 4 float64 keys compared by integer part (ties), 5 float64 keys under (value, then
+// sign bit), where -0.0 and +0.0 are different keys, 6 float64 keys that are neighbouring representable values.
 type TypesCase struct {
 	KT  int      `json:"kt"`
 	N   int      `json:"n"`
@@ -773,7 +774,7 @@ func runTypes[K cmp.Ordered](c TypesCase, name string, mk func(int) K, less func
 		default:
 			got, err := t.Get(mk(k))
 			want, present := model[k]
-			if present != (err == nil) || (present && (got.Val != want || got.Key != mk(k))) {
+			if present != (err == nil) || (present && (got.Val != want || less(got.Key, mk(k)) || less(mk(k), got.Key))) {
 				return fmt.Errorf("%s: Get(%v) = (%v, %v), want (%v, present %v)", ctx(), mk(k), got, err, want, present)
 			}
 		}
@@ -873,10 +874,24 @@ func runTies(c TypesCase, r *pbt.R) error {
 }
 
 func typesProp(c TypesCase, r *pbt.R) error {
-	if ((c.KT%5)+5)%5 == 4 {
+	if ((c.KT%7)+7)%7 == 4 {
 		return runTies(c, r)
 	}
-	switch ((c.KT % 5) + 5) % 5 {
+	switch ((c.KT % 7) + 7) % 7 {
+	case 5:
+		// -0.0 and +0.0 are two keys under a comparator that looks at the sign bit (the language's == calls them equal)
+		return runTypes(c, "float64 under (value, then sign bit): -0.0 precedes +0.0", func(i int) float64 {
+			switch {
+			case i < 3:
+				return float64(i-3) / 2
+			case i == 3:
+				return math.Copysign(0, -1)
+			}
+			return float64(i-4) / 2
+		}, func(a, b float64) bool { return a < b || (a == b && math.Signbit(a) && !math.Signbit(b)) }, r)
+	case 6:
+		return runTypes(c, "float64 (neighbouring representable values at 0.3)", func(i int) float64 { return math.Float64frombits(math.Float64bits(0.3) + uint64(i)) },
+			func(a, b float64) bool { return a < b }, r)
 	case 0:
 		return runTypes(c, "string", func(i int) string { return fmt.Sprintf("k%03d", i) }, func(a, b string) bool { return a < b }, r)
 	case 1:
@@ -895,7 +910,7 @@ func typesProp(c TypesCase, r *pbt.R) error {
 }
 
 func typesGen(s pbt.Src, thorough bool) TypesCase {
-	c := TypesCase{KT: s.Intn(5), N: pbt.Pick(s, 3, 6, 20, 80)}
+	c := TypesCase{KT: s.Intn(7), N: pbt.Pick(s, 3, 6, 20, 80)}
 	max := 150
 	if thorough {
 		max = 600
@@ -1013,7 +1028,7 @@ func TestProp(t *testing.T) {
 		},
 		&pbt.Check[TypesCase]{
 			Name: "types",
-			Rule: "the same ordered-map semantics on other instantiations: bstree.New[K, struct] with K = string ascending, float64 descending (negative, zero, fractional keys), uint8, strings ordered by (length, bytes), and float64 keys compared by their integer part only (a strict weak order with ties: equivalent keys are one key); random Upsert/Delete/Get sequences of up to 150 (600) operations over 3..80 keys against a Go map: results of every call, Size after every call (subject to the known finding), Traverse in comparator order at the end. Non-trivial = >= 3 keys at the end.",
+			Rule: "the same ordered-map semantics on other instantiations: bstree.New[K, struct] with K = string ascending, float64 descending (negative, zero, fractional keys), uint8, strings ordered by (length, bytes), float64 keys compared by their integer part only (a strict weak order with ties: equivalent keys are one key), float64 keys under (value, then sign bit), where -0.0 and +0.0 are two keys although == calls them equal, and float64 keys that are neighbouring representable values; random Upsert/Delete/Get sequences of up to 150 (600) operations over 3..80 keys against a Go map: results of every call, Size after every call (subject to the known finding), Traverse in comparator order at the end. Non-trivial = >= 3 keys at the end.",
 			Gen: typesGen, Prop: typesProp, OutOfEnum: func(TypesCase, bool) bool { return true },
 			RapidQuick: 400, RapidThorough: 5000,
 		},
